@@ -148,6 +148,21 @@ def bigdb_run(rng, nfill):
     return {"setup": setup, "mode": "stress", "threads": threads, "yield_seed": rng.getrandbits(60), "prefill": nfill, "post": post}
 
 
+def tolcrowd_run(rng):
+    """Many signatures that rely on the STORE's tolerance (their own is 0) and whose entropy distance to the
+    scanned function lies between the two tolerances a writer keeps switching: a scan must report all of them
+    or none (one configuration per scan), never a part."""
+    n = rng.choice([16, 24])
+    ent = sl.E["2.5"] + (sl.T025 + sl.T050) // 2           # distance 0.375: inside 0.5, outside 0.25
+    setup = [{"op": "settol", "tol": sl.T050},
+             {"op": "addbatch", "sigs": [mk_sig("c%02d" % i, "tA", "fX", ent, 0) for i in range(n)]}]
+    flips = [{"op": "settol", "tol": [sl.T025, sl.T050][k % 2]} for k in range(rng.choice([30, 40]))]
+    threads = [{"tid": 1, "ops": flips, "pace_us": 150}]
+    for t in (2, 3, 4):
+        threads.append({"tid": t, "ops": [{"op": rng.choice(["scan", "scan", "cand"]), "q": 1} for _ in range(8)]})
+    return {"setup": setup, "mode": "stress", "threads": threads, "yield_seed": rng.getrandbits(60)}
+
+
 def run_conc(ctx, plan, name, race):
     pp = os.path.join(ctx.scratch, name + ".plan.json")
     trace = os.path.join(ctx.scratch, name + ".ndjson")
@@ -265,6 +280,10 @@ def check(ctx):
     bruns = [bigdb_run(rng, n) for n in ([1100, 2300, 1100, 3100, 1100, 1100, 2300, 1100] if thorough else [1100, 1100, 1100, 1100])]
     validate(ctx, {"backend": "pebble", "theta": THETAS[0], "tol": sl.T050, "queries": QUERIES, "runs": bruns}, "bigdb", race=False)
     ctx.notes["bigdb_runs"] = [b["prefill"] for b in bruns]
+    # 3c. configuration half of "one committed state": many hits per scan while the tolerance is being switched
+    truns = [tolcrowd_run(rng) for _ in range(8 if thorough else 3)]
+    validate(ctx, {"backend": "pebble", "theta": THETAS[0], "tol": sl.T050, "queries": QUERIES, "runs": truns}, "tolcrowd", race=False)
+    ctx.notes["tolcrowd_runs"] = len(truns)
     if tr:
         evs = vlib.read_ndjson(tr)
         ctx.sample({"recorded_events": [e for e in evs if e["ev"] != "reset"][:6]})
